@@ -225,8 +225,18 @@ def probe():
         info["props"] = new
 
     is_str = [isinstance(v, str) for v in panel]
+    # the style families of every object class, in the order the real `get_families` returns them (= the order in which
+    # `get_style` merges the family defaults: later families overwrite earlier ones)
+    from magpylib._src.style import get_families
+
+    families = []
+    for n, o in objs:
+        fams = get_families(o)
+        if not all(isinstance(f, str) for f in fams):
+            raise Refusal(f"get_families({n}) does not return strings")
+        families.append((n, list(fams)))
     return {"panel": panel, "index": index, "canon": canon, "classes": classes, "root": DefaultSettings, "vrows": vrows, "is_str": is_str,
-            "defaults": defaults, "objects": [(n, o._style_class) for n, o in objs]}
+            "defaults": defaults, "objects": [(n, o._style_class) for n, o in objs], "families": families}
 
 
 # ------------------------------------------------------------------------------------------ Lean text
@@ -311,5 +321,7 @@ def lean_text(P):
     out.append("def classes : List ClassInfo := [\n" + ",\n".join(cl) + "]\n")
     out.append("/-- object class name ↦ index of its style class in `classes` -/")
     out.append("def objectClasses : List (String × Nat) := [" + ", ".join(f"({lstr(n)}, {seen.index(c)})" for n, c in P["objects"]) + "]\n")
+    out.append("/-- object class name ↦ its style families, in the order `get_families` (magpylib/_src/style.py) returns them (probed on an instance) -/")
+    out.append("def families : List (String × List Str) := [" + ", ".join(f"({lstr(n)}, [" + ", ".join(lstr(f) + ".toList" for f in fs) + "])" for n, fs in P["families"]) + "]\n")
     out.append("end MagpyVerif.Gen.StyleSchema")
     return "\n".join(out) + "\n", [names[c] for c in seen]
